@@ -10,7 +10,7 @@ import numpy as np
 
 from ..common import q2s, run_driver, seed_rng
 
-PROP_MODS = ['Stbem.Props.C16']
+PROP_MODS = ['Stbem.Props.C16', 'Stbem.Props.QuadtreeTie']
 RULE = ('lock-step correspondence of src/initial_mesh.py (InitialMesh driven in-process; dyadic floats read as exact '
         'rationals) with the Lean model Stbem.Model.Quadtree: after every operation the answer (children ids / '
         'returned element / vertex index / assertion tag) and the canonical dump (leaves sorted by index with '
@@ -20,7 +20,13 @@ RULE = ('lock-step correspondence of src/initial_mesh.py (InitialMesh driven in-
         'uniform_refine with the iteration order of the Python set passed to the model; every boundary segment '
         '[k/2^l,(k+1)/2^l] of every unit side piece, both orientations, tuple / list / 2x1 ndarray end points, model '
         'fuel l+1, plus targeting on pre-refined meshes and illegal (non-dyadic, too coarse) segments where model '
-        'and code must agree on the assertion. search: model-independent oracle on the real mesh. '
+        'and code must agree on the assertion. Regenerated from the source on every run (translate/quadtreegen.py -> '
+        'Gen/QuadtreeGen.lean: Element.__init__/edges, InitialMesh.__init__, vertex_from_coords, bisect_edge, refine, '
+        'uniform_refine, refine_msh_bdr, the domain meshes, with the dictionaries nbrs / parent_edge / __bisect_edge as '
+        'real maps keyed by vertex-object pairs); every `qt ...` request is answered a second time by the generated '
+        'functions on a state of their own (`gqt ...`, Driver/GQuadtreeCmd.lean) and must give the same answer and dump; '
+        'Props/QuadtreeTie.lean ties the generated functions to the hand model. '
+        'search: model-independent oracle on the real mesh. '
         'non-trivial = balance closure refined at least one extra element, or a targeting call with >= 2 rounds; '
         'distinct = distinct (domain, operation sequence / segment, orientation, end-point type).')
 TRUSTED = [
@@ -34,11 +40,33 @@ TRUSTED = [
     'in units of pi)',
     'the iteration order of the Python set leaf_elements is an input (uniform_refine) or irrelevant (first scan of '
     'refine_msh_bdr for a boundary segment: at most one leaf matches)',
+    'translate/quadtreegen.py and its object model (documented in its header and in the header of the generated file: '
+    'Vertex / Element objects = records, identity = idx / position in InitialMesh.elements; dict = insertion list, newest '
+    'first; the set leaf_elements = list in insertion order; isclose = equality, eps = 0; recursion / while True = fuel), '
+    'validated on every run by the generated twins of all qt requests',
 ]
 ASSUMPTIONS = ['roots are congruent squares of one grid with pairwise different vertex coordinates (UnitSquare, '
                'PiSquare, LShape satisfy this); theorems are stated for unit roots at integer positions',
                'refine is called on leaves; refine_msh_bdr on a mesh whose boundary leaf at the segment is not finer '
                'than the segment (the shipped callers use a fresh mesh)']
+
+
+def translate(res):
+    """Regenerates lean/Stbem/Gen/QuadtreeGen.lean from src/initial_mesh.py of the tree under test (a construct outside the
+    translated fragment raises TranslationError = broken obligation `translator`)."""
+    import os
+    from ..common import LEAN, REPO, VERIF, write_if_changed
+    tdir = os.path.join(VERIF, 'translate')
+    if tdir not in sys.path:
+        sys.path.insert(0, tdir)
+    import quadtreegen
+    stats = quadtreegen.generate(REPO, os.path.join(LEAN, 'Stbem', 'Gen'), write_if_changed)
+    for k, v in sorted(stats.items()):
+        res.bump('quadtreegen_translated_' + k, v)
+    res.count(('translated', 'initial_mesh.py quadtree'), True,
+              n=stats.get('for_loops', 0) + stats.get('branches', 0) + stats.get('asserts', 0) + stats.get('dict_reads', 0) +
+              stats.get('dict_writes', 0))
+    return stats
 
 
 class Timeout(Exception):
@@ -206,16 +234,28 @@ class Batch:
         self.ctx.append(ctx)
 
     def run(self):
+        """every `qt …` request is put to the hand model and, as `gqt …`, to the definitions regenerated from
+        src/initial_mesh.py (Gen/QuadtreeGen.lean, Driver/GQuadtreeCmd.lean; a state of their own); both must give the
+        answer of the real code"""
         if not self.lines:
             return None
-        out = run_driver(self.lines)
-        if len(out) != len(self.lines):
-            return dict(problem='driver returned %d lines for %d' % (len(out), len(self.lines)))
-        for i, (o, e) in enumerate(zip(out, self.expect)):
-            if e is not None and o != e:
-                j = max(k for k in range(i + 1) if self.lines[k].startswith('qt init'))
-                return dict(line=self.lines[i], model=o[:1500], code=e[:1500], context=self.ctx[i],
-                            replay=self.lines[j:i + 1][-40:])
+        twins = ['g' + l for l in self.lines]
+        out = run_driver(self.lines + twins)
+        if len(out) != 2 * len(self.lines):
+            return dict(problem='driver returned %d lines for %d' % (len(out), 2 * len(self.lines)))
+        n = len(self.lines)
+        for kind, outs in (('hand model', out[:n]), ('generated', out[n:])):
+            for i, (o, e) in enumerate(zip(outs, self.expect)):
+                if e is not None and o != e:
+                    j = max(k for k in range(i + 1) if self.lines[k].startswith('qt init'))
+                    return dict(kind=kind, line=self.lines[i], model=o[:1500], code=e[:1500], context=self.ctx[i],
+                                replay=self.lines[j:i + 1][-40:])
+        # where the real code's answer is not recorded (expect None) the two models must still agree with each other
+        for i, (o, g) in enumerate(zip(out[:n], out[n:])):
+            if self.expect[i] is None and o != g and not o.startswith('err unsupported'):
+                return dict(kind='generated vs hand model', line=self.lines[i], model=o[:1500], generated=g[:1500],
+                            context=self.ctx[i])
+        self.n_generated = n
         return None
 
 
@@ -459,8 +499,11 @@ def correspond(res, tier):
 
     dis = batch.run()
     res.notes['model_lines'] = len(batch.lines)
+    res.notes['generated_model_lines'] = getattr(batch, 'n_generated', 0)
     if dis is not None:
-        res.broken_obligation('correspondence C16: Quadtree model and src/initial_mesh.py differ', repr(dis)[:6000])
+        res.broken_obligation('correspondence C16: Quadtree model%s and src/initial_mesh.py differ' %
+                              (' REGENERATED from src/initial_mesh.py (gqt)' if dis.get('kind', '').startswith('generated') else ''),
+                              repr(dis)[:6000])
         res.notes['disagreement'] = dis
 
 
